@@ -20,12 +20,61 @@ NA = {
 }
 
 CHECKS = {
+    "C01": dict(
+        level="exploration",
+        text="Seeded simulation of programs of successful liquid operations on one device inside a real with-block; a second party - an independent interpreter of the Tecan record format with its own device-specific numbering and exact-rational well state - executes the newly appended records after every operation and, at the end, the file read back from a real scratch directory. Routing (which wells the records address), volumes and compositions are compared with the Labware twin after every step. Sampling over seeds: evidence, not proof.",
+        note="Trusted: the robot interpreter (verif/sim/robot.py) as the meaning of A/D/R records; two-decimal rounding slack (0.005 per A/D record) only in the free-float regime, exact comparison in the quarter/centi regimes; compositions compared only where the content is fully known. Known finding F4 (Fluent distribute source range) is reported as KNOWN-FINDING.",
+        technique="deterministic simulation: seeded programs, peer-model (robot interpreter) replay of records and of the written file, lock-step comparison with the digital twin",
+        ref="DESIGN.md section 5 / C01",
+    ),
+    "C02": dict(
+        level="exploration",
+        text="Seeded histories over every tracked entry point (add/remove/aspirate/dispense/transfer/distribute/evo_aspirate/evo_dispense) in which rejections are aimed at the limit at a chosen element or sub-step (far beyond, one grid step, one ulp, inf) and about one operation in twelve is interrupted at a robotools source line; after every operation - accepted, rejected or interrupted - limits, non-negativity, the frame condition and an exact-arithmetic must-reject condition are checked. Sampling over seeds.",
+        note="Trusted: harness-side plan of the requested moves (verif/sim/ops.py) and exact Fraction arithmetic; must-reject is only demanded beyond a few ulp of float slack; spurious rejections are deliberately not judged.",
+        technique="deterministic simulation + fault injection: aimed rejections at every call site and sub-step, line-level interrupts, exact-arithmetic must-reject oracle",
+        ref="DESIGN.md section 5 / C02",
+    ),
     "C03": dict(
         level="fault_enumeration",
         text="Seeded simulation of programs inside a real `with Worklist(path)` block on a real scratch file system, with one terminal fault per execution: every kind of rejection aimed at a chosen sub-step, or an exception injected (sys.settrace) at a chosen robotools source line of the terminal operation - every line in the thorough tier. An independent robot interpreter replays the record list after every operation and the file written by the real __exit__. Sampling over programs, enumeration over crash points within a program; evidence, not proof.",
         note="Trusted: the robot interpreter (verif/sim/robot.py) as the meaning of A/D/R/B; records, per-record 0.005 rounding slack in the free-float regime; CPython's settrace line events as the set of crash points; undecodable records are counted and end the replay clauses for that run (decoding is C01's subject).",
         technique="deterministic simulation + fault injection: seeded programs, aimed rejections, line-level interrupt enumeration, robot replay of records and of the file written by __exit__",
         ref="DESIGN.md section 5 / C03",
+    ),
+    "C04": dict(
+        level="exploration",
+        text="Seeded long histories of add/remove (direct and through aspirate/dispense of both devices) over every geometry class and argument shape (scalar, lists with repeats and trough aliases, 2-D slices, broadcast scalars), about one call in six aimed to be rejected at a chosen element; an exact-arithmetic ledger is stepped in lock-step and compared after every call, with prefix-or-nothing semantics after rejected calls and a bit-exact frame condition on unaddressed wells. Sampling over seeds.",
+        note="Trusted: the ledger (verif/sim/ledger.py) and the harness-side column-major pairing by explicit loops; exact equality on the quarter grid, 1e-9 relative float slack elsewhere.",
+        technique="deterministic simulation: seeded histories with interleaved rejections, lock-step exact reference model (ledger), narrow resynchronisation after faults",
+        ref="DESIGN.md section 5 / C04",
+    ),
+    "C05": dict(
+        level="exploration",
+        text="Seeded histories of transfers, distributions, dispenses of known composition and removals in exact-friendly volume regimes, stepped in lock-step with an exact volumetric mixing model; mixing, finiteness, normalisation, inertness of removals, conservation of every component and the default naming rule are checked after every step. The statement has no fault dimension, so this is the weakest fit of the technique: its value is the reference model over long histories. Sampling over seeds.",
+        note="Trusted: the ledger's mixing model; wells that received liquid of unknown composition are exempt from the mixing and sum clauses only; for self-overlapping transfers the sub-step order is taken from the emitted records, guarded by the requested flow totals.",
+        technique="deterministic simulation: seeded histories, lock-step exact-arithmetic reference model, conservation invariant",
+        ref="DESIGN.md section 5 / C05",
+    ),
+    "C11": dict(
+        level="exploration",
+        text="Seeded histories mixing add/remove/aspirate/dispense/transfer/distribute (zero volumes, split volumes, same-labware transfers, all label forms) with rejections and line-level interrupts interleaved; an append-only model of the history is compared after every successful operation (prefix, entry count, newest entry and label incl. the large-volume count, report), and an aliasing monitor keeps every array ever handed out by `volumes`/`history` by reference next to a private copy for the whole run. Sampling over seeds.",
+        note="Trusted: harness-side plan for what moved; the count of a transfer that moves nothing is accepted as 0 or 1; labware touched by an injected interrupt leaves the per-operation clauses for the rest of the run. Known finding F7 (labels 'first'/'last') is reported as KNOWN-FINDING.",
+        technique="deterministic simulation + fault injection: seeded histories, append-only history model, snapshot/aliasing monitor over the recorded history",
+        ref="DESIGN.md section 5 / C11",
+    ),
+    "C16": dict(
+        level="exploration",
+        text="One seeded program, three replicas (EvoWorklist, FluentWorklist, BaseWorklist) each owning a fresh copy of the same world; the same call is issued to every replica step by step, rejected operations included, and after every step outcomes, labware states (volumes, compositions, histories) and record lists are compared; differing trough positions must decode to the same real well; the Base replica must refuse device-specific numbering. Sampling over seeds.",
+        note="Trusted: the harness-side numbering (verif/sim/geom.py) for the trough-position exemption; rejection classes other than volume violations / InvalidOperationError may differ between the copies.",
+        technique="deterministic simulation: replicated state machines fed one operation log incl. faulty operations, divergence check after every step",
+        ref="DESIGN.md section 5 / C16",
+    ),
+    "C17": dict(
+        level="fault_enumeration",
+        text="Seeded histories over one worklist object and one real scratch directory (appends of every record type incl. Latin-1 text, save to str/Path, repeated saves with growing and shrinking content, clear, with-blocks entered on non-empty worklists and left by rejections or injected interrupts, hostile pre-existing files); for every save()/__exit__ of a program every robotools source line inside it is in turn the point of an injected exception, followed by a recovery save that must repair the file. File bytes are compared with CRLF-joined Latin-1 records. Sampling over programs, enumeration over crash points inside save/__exit__.",
+        note="Trusted: the real file system as ground truth (no patched open); OS-level I/O errors are not injected; nothing is claimed about the file of an aborted save, only about the recovery save.",
+        technique="deterministic simulation + fault injection: real file system scratch dirs, hostile disk pre-states, line-level interrupt enumeration inside save/__exit__ with recovery",
+        ref="DESIGN.md section 5 / C17",
     ),
 }
 
